@@ -185,7 +185,10 @@ def _args_attr(ip, r):
     return ZV(args(r.term), "Seq[Ty]")
 
 
-declare_always_truthy("Ty")
+# bool(t): typing objects (aliases, Any, Callable) are always true; a plain class is true unless its *metaclass* defines __bool__ / __len__
+# (then `x or y` on classes takes the other branch): unknown, the uninterpreted `truthy`
+import pyvc.values as _v0
+_v0.TRUTH_FN["Ty"] = lambda term: z3.Or(kind(term) != K["Class"], L.truthy(term))
 
 
 # ---- bare typing objects, origins, isinstance on typing internals
